@@ -66,16 +66,24 @@ func verifyCaveats(caveats []string, userID string) error {
 LoopCaveat:
 	for _, caveat := range caveats {
 		switch {
+		// Every caveat has to hold and each kind may appear only once: the holder of a
+		// token can append caveats, and an appended "user_id = " or "time < " caveat must
+		// not be able to stand in for the one the token was issued with.
 		case caveat == Gen:
+			if verified&1 != 0 {
+				return errors.New("Duplicate caveat present")
+			}
 			verified |= 1
 		case strings.HasPrefix(caveat, UserPrefix):
-			if caveat[len(UserPrefix):] == userID {
-				verified |= 2
+			if verified&2 != 0 || caveat[len(UserPrefix):] != userID {
+				return errors.New("Token was not issued for this user")
 			}
+			verified |= 2
 		case strings.HasPrefix(caveat, TimePrefix):
-			if verifyExpiry(caveat[len(TimePrefix):], now) {
-				verified |= 4
+			if verified&4 != 0 || !verifyExpiry(caveat[len(TimePrefix):], now) {
+				return errors.New("Token has expired")
 			}
+			verified |= 4
 		default:
 			verified |= 8
 			break LoopCaveat
